@@ -35,6 +35,7 @@ func dagPasses(id, tier string) []dagPass {
 	fam := id
 	if !thorough {
 		ps = []dagPass{
+			{fam, false, 0, 0}, // default schedule, all completion orders (fast failure on gross defects)
 			{fam, false, 1, 0}, // every labelled graph: one scheduling deviation
 			{fam, false, 0, 1}, // every labelled graph: one map-order deviation
 			{fam, true, 2, 0},  // every graph shape: two scheduling deviations
@@ -42,6 +43,7 @@ func dagPasses(id, tier string) []dagPass {
 		}
 	} else {
 		ps = []dagPass{
+			{fam, false, 0, 0},
 			{fam, false, 2, 1},
 			{fam, true, 3, 0},
 			{fam, true, 2, 2},
@@ -64,12 +66,18 @@ func dagPasses(id, tier string) []dagPass {
 // deepScenario selects the scenarios explored with the larger deviation budgets: the representative
 // labelling of every graph shape; for three and more tasks at most one task with a non-nil result,
 // and bounded-parallel modes only with all-nil results.
-func deepScenario(sc *dagh.Scenario) bool {
+func deepScenario(sc *dagh.Scenario, thorough bool) bool {
 	if !sc.Canon {
+		return false
+	}
+	if (sc.Cancel || len(sc.Shared) > 0) && sc.N > 2 && !thorough {
 		return false
 	}
 	if sc.N <= 2 {
 		return true
+	}
+	if sc.N >= 4 && !thorough {
+		return false
 	}
 	bad, retry := 0, false
 	for _, s := range sc.Scripts {
@@ -114,7 +122,7 @@ func runDagCheck(c *RunCtx) {
 		}
 		pname := fmt.Sprintf("pass%d_%s_k%d_d%d", pi+1, pass.Family, pass.K, pass.D)
 		for _, sc := range scs {
-			if pass.Canon && !deepScenario(sc) {
+			if pass.Canon && !deepScenario(sc, c.Tier == "thorough") {
 				continue
 			}
 			units = append(units, unit{pass, pname, sc})
@@ -124,6 +132,9 @@ func runDagCheck(c *RunCtx) {
 	sort.SliceStable(units, func(i, j int) bool {
 		wi := (units[i].pass.K*2+units[i].pass.D)*10 + units[i].sc.N
 		wj := (units[j].pass.K*2+units[j].pass.D)*10 + units[j].sc.N
+		if (units[i].pass.K+units[i].pass.D == 0) != (units[j].pass.K+units[j].pass.D == 0) {
+			return units[i].pass.K+units[i].pass.D == 0 // the zero-deviation sweep goes first
+		}
 		return wi > wj
 	})
 	{
@@ -157,6 +168,9 @@ func runDagCheck(c *RunCtx) {
 				final := k == kb
 				ex := &explore.Explorer{Budget: explore.Budget{K: k, D: db}, Deadline: c.Deadline}
 				ex.Run = func(ch *explore.Chooser) string {
+					if ex.Stats.Execs%4096 == 4095 && c.stopped() {
+						ex.MaxExecs = 1 // another worker reported a violation
+					}
 					fs, obs, cn, r := dagh.Execute(sc, ch, nil)
 					if final {
 						res.Transitions += int64(r.Steps)
@@ -201,7 +215,13 @@ func runDagCheck(c *RunCtx) {
 					}
 					var tr []string
 					replayDag(c.ID, &dc, func(s string) { tr = append(tr, s) })
+					if len(tr) > 120 {
+						tr = append([]string{fmt.Sprintf("... %d earlier steps omitted ...", len(tr)-120)}, tr[len(tr)-120:]...)
+					}
 					dc.Trace = tr
+					for len(dc.Choices) > 0 && dc.Choices[len(dc.Choices)-1] == 0 {
+						dc.Choices = dc.Choices[:len(dc.Choices)-1]
+					}
 					raw, _ := json.Marshal(dc)
 					res.violate(Violation{Prop: c.ID, Msg: fmt.Sprintf("%s  [scenario: %s; k=%d d=%d]", v.Msg, sc, k, db), Case: raw, Weight: k*1000 + len(sc.Hist)*10 + sc.N, Known: dagKnown(c.ID, sc, v.Msg)})
 				}
